@@ -36,6 +36,10 @@ def parseNat (s : String) : Option Nat :=
   | some (.ofNat n) => some n
   | _ => none
 
+/-- the yield points of the database (`axmosdb::verif::sched::TAGS`) -/
+def yieldTags : List String :=
+  ["snapshot_taken", "commit_logged", "committed", "page_fetched", "tree_write", "leaf_released"]
+
 def parseTSetup : List String → List String → List Fill → Option TSetup
   | [], hw, fs =>
     match parseSetup hw.reverse {} with
@@ -46,6 +50,15 @@ def parseTSetup : List String → List String → List Fill → Option TSetup
       match parseNat (w.drop (if w.startsWith "cache=" then 6 else 5)).toString with
       | some _ => parseTSetup ws hw fs
       | none => none
+    else if w.startsWith "yield=" then
+      -- perturbation of the run only (tag:permille:max_us); no meaning for the model
+      match (w.drop 6).toString.splitOn ":" with
+      | [tag, a, b] =>
+        match parseNat a, parseNat b with
+        | some pm, some us =>
+          if yieldTags.contains tag && pm ≤ 1000 && us != 0 && us ≤ 50000 then parseTSetup ws hw fs else none
+        | _, _ => none
+      | _ => none
     else if w.startsWith "con=" then none
     else if w.startsWith "fill=" then
       match (w.drop 5).toString.splitOn ":" with
